@@ -2,12 +2,14 @@ from pyvc.runner import Property, StandIn
 import contracts.all  # noqa
 import contracts.peaks as PK
 import contracts.standins_peaks as B
+from contracts import lemmas as LM
 
-PROVED = [PK.symmetric_moving_average]
+PROVED = [PK.symmetric_moving_average, PK._replace_merged]
 
 PROPERTY = Property(
     "C19", "exploration",
     contracts=PROVED,
+    lemmas=[PK.RM_LEMMA, LM.DISJOINT],
     standins=[StandIn("find_peaks = gap-threshold clusters", B.find_peaks, B.find_peaks.harness, budget={"quick": 3000, "thorough": 40000}),
               StandIn("hits -> peaks -> sum_waveform: area conservation", B.peak_chain, B.peak_chain.harness, budget={"quick": 3000, "thorough": 40000}),
               StandIn("replace_merged", B.replace_merged, B.replace_merged.harness, budget={"quick": 3000, "thorough": 40000}),
@@ -17,12 +19,14 @@ PROPERTY = Property(
               StandIn("store_downsampled_waveform", B.store_downsampled_waveform, B.store_downsampled_waveform.harness),
               StandIn("index_of_fraction = defining formula", B.index_of_fraction, B.index_of_fraction.harness),
               StandIn("highest_density_region = defining formula", B.highest_density_region, B.highest_density_region.harness),
-              StandIn("replay-scope:symmetric_moving_average", PK.symmetric_moving_average, PK.symmetric_moving_average.harness)],
+              StandIn("replay-scope:symmetric_moving_average", PK.symmetric_moving_average, PK.symmetric_moving_average.harness),
+              StandIn("replay-scope:_replace_merged", PK._replace_merged, PK._replace_merged.harness)],
     trusted=["pyvc VC generator and value model", "z3 5.1.0 / cvc5 1.4.0", "ghost prefix sums (definitional axioms)"],
     assumptions=["A3 floating point is modelled over the reals (symmetric_moving_average proof); stand-ins compare with a stated tolerance",
-                 "find_peaks, sum_waveform, replace_merged and the peak splitters are NOT proved: bounded stand-ins only",
+                 "find_peaks, sum_waveform and the peak splitters are NOT proved: bounded stand-ins only; of replace_merged the kernel _replace_merged is proved (for non-empty, ordered, disjoint skip windows - what merging runs of original peaks gives), the wrapper (touching_windows call, result size) is covered by the bounded stand-in only",
+                 "_replace_merged: a row is modelled by 7 representative fields (int, real and one 2-D field); the row copy copies every declared field; the induction principle behind the window lemma is trusted (base and step are discharged)",
                  "widths (compute_widths) are not covered; thorough-tier budgets are capped so that the tier ends within about half an hour"],
-    explanation="symmetric_moving_average equals its defining window mean for every waveform and wing width (prefix-sum proof over the "
+    explanation="_replace_merged puts every merged row and every original row outside the skip windows into the result, whole, in order, and nothing else (index-structure proof with a ghost count of skipped rows); symmetric_moving_average equals its defining window mean for every waveform and wing width (prefix-sum proof over the "
                 "reals); clustering, area conservation of the summed waveform, down-sampling, merging, replace_merged, split tiling, the area-fraction "
                 "index and the highest-density region are bounded stand-ins against direct definitions",
 )
